@@ -74,6 +74,17 @@ def hash_strings_curve(g, seed, tier):
         else:
             out.append((v.to_bytes(48, "big") + B[-1].to_bytes(48, "big"), "boundary"))      # c1 = v
             out.append((B[-2].to_bytes(48, "big") + v.to_bytes(48, "big"), "boundary"))      # c0 = v
+    if g == 1:
+        # x chosen by what the residue test SEES: x^3 + 4 whose stored (Montgomery) form is a word pattern - zero low words, all-ones words,
+        # the modulus' own words - found by extracting a cube root. Whatever decides "is it a square" (Euler's criterion, a Jacobi
+        # symbol, a square root and a comparison) starts from those words, not from the bytes of the hash.
+        Rinv = pow(2**384, -1, q)
+        pats = [v for v in alpha.limb_product(q, 6, 3) if 0 < v < q]
+        pats = pats[:: (7 if tier == "quick" else 1)] + [v for v in pats if v & (2**128 - 1) == 0][:: (3 if tier == "quick" else 1)]
+        for T in alpha.dedup(pats):
+            xs = alpha.cube_roots_fq(T * Rinv - 4)
+            if xs:
+                out.append((min(xs).to_bytes(48, "big"), "stored form of x^3+4 is a word pattern"))
     # unreduced values and top-bit patterns
     base = alpha.fillers(seed, "hcb%d" % g, 1, q)[0]
     for top in range(8):
